@@ -591,6 +591,16 @@ def logical_not(a):
     return SBool(z3.Not(lift(a).t))
 
 
+def isclose(a, b, rtol=1e-05, atol=1e-08, equal_nan=False):
+    """numpy's documented formula |a - b| <= atol + rtol * |b| (finite operands)"""
+    if isinstance(a, SArr) or isinstance(b, SArr):
+        ra, rt = _real(atol), _real(rtol)
+        return ew2(asarray(a) if not isinstance(a, SArr) else a, b,
+                   lambda p, q: z3.If(p - q >= 0, p - q, q - p) <= ra + rt * z3.If(q >= 0, q, -q), 'bool')
+    ta, tb = _real(a), _real(b)
+    return SBool(z3.If(ta - tb >= 0, ta - tb, tb - ta) <= _real(atol) + _real(rtol) * z3.If(tb >= 0, tb, -tb))
+
+
 def square(x):
     return x * x
 
@@ -752,7 +762,7 @@ class _Module:
                  asarray=asarray, asanyarray=asanyarray, array=array, atleast_1d=atleast_1d, atleast_2d=atleast_2d,
                  transpose=transpose, squeeze=squeeze, expand_dims=expand_dims, reshape=reshape, column_stack=column_stack,
                  concatenate=concatenate, vstack=vstack, hstack=hstack, sum=sum, mean=mean, all=all, any=any, argsort=argsort,
-                 argmin=argmin, clip=clip, logical_and=logical_and, logical_or=logical_or, logical_not=logical_not, square=square, count_nonzero=count_nonzero, diag=diag, cumsum=cumsum, insert=insert, average=average, isfinite=isfinite, isinf=isinf, isnan=isnan, where=where, dot=dot, prod=prod,
+                 argmin=argmin, clip=clip, logical_and=logical_and, logical_or=logical_or, logical_not=logical_not, isclose=isclose, square=square, count_nonzero=count_nonzero, diag=diag, cumsum=cumsum, insert=insert, average=average, isfinite=isfinite, isinf=isinf, isnan=isnan, where=where, dot=dot, prod=prod,
                  minimum=minimum, maximum=maximum, abs=abs_, absolute=abs_, ndim=ndim, shape=shape, ndarray=ndarray,
                  inf=SReal(INF), pi=_np.pi, newaxis=None, float64=float, int64=int, bool_=bool,
                  )
